@@ -24,6 +24,7 @@ use crate::BinOperator;
 
 fn declare() {
     use crate::instruction::verif_gate::*;
+    scalar_ops_only();
     allow_mask((1 << K_VARIABLE) | (1 << K_BINOPERATION) | (1 << K_UNARYOPERATION) | (1 << K_BLOCK) | (1 << K_IFELSE) | (1 << K_SET) | (1 << K_ARRAYREPEAT) | (1 << K_ARRAY) | (1 << K_TUPLE) | (1 << K_TUPLEACCESS));
 }
 fn iws(i: Instruction) -> InstructionWithStr {
